@@ -330,3 +330,128 @@ Example forwarded_prefix_example :
     [RAlloc (mkL 9223372036854775807 1); RDealloc 4096 (mkL 0 1); RAlloc (mkL 1 1); RAlloc (mkL 5 1)]
   = ([RAlloc (mkL 9223372036854775807 1); RDealloc 4096 (mkL 0 1)], [RespPtr 4096; RespPtr 8192], Panic Overflow).
 Proof. vm_compute. reflexivity. Qed.
+
+(** * Re-entrant requests *)
+
+Scheme rtree_mind := Induction for rtree Sort Prop
+  with rforest_mind := Induction for rforest Sort Prop.
+Combined Scheme rtree_forest_ind from rtree_mind, rforest_mind.
+
+Lemma slot_run_app chk slot a b :
+  slot_run chk slot (a ++ b) = (do s <- slot_run chk slot a; slot_run chk s b).
+Proof.
+  destruct slot as [i|]; cbn [slot_run bind]; [|reflexivity].
+  rewrite run_from_app. destruct (run_from chk i a) as [i'|p]; cbn [bind slot_run]; reflexivity.
+Qed.
+
+Lemma slot_run_one chk slot r :
+  (do fs <- profiler_step chk slot r; Ok (snd fs)) = slot_run chk slot [op_of_req r].
+Proof.
+  destruct slot as [i|]; cbn [profiler_step slot_run run_from bind snd]; [|reflexivity].
+  destruct (step chk i (op_of_req r)); reflexivity.
+Qed.
+
+Lemma prof_tree_forest_char chk :
+  (forall t slot log,
+      prof_tree chk slot log t =
+      (do s <- slot_run chk slot (map op_of_req (pre_reqs_t t)); Ok (s, log ++ pre_reqs_t t, pre_ans_t t))) /\
+  (forall f slot log,
+      prof_forest chk slot log f =
+      (do s <- slot_run chk slot (map op_of_req (pre_reqs_f f)); Ok (s, log ++ pre_reqs_f f, pre_ans_f f))).
+Proof.
+  apply rtree_forest_ind.
+  - intros r a nested IH slot log. cbn [prof_tree pre_reqs_t pre_ans_t map].
+    change (op_of_req r :: map op_of_req (pre_reqs_f nested)) with ([op_of_req r] ++ map op_of_req (pre_reqs_f nested)).
+    rewrite slot_run_app, <- slot_run_one.
+    destruct (profiler_step chk slot r) as [fs|p] eqn:Es; cbn [bind]; [|reflexivity].
+    assert (Hf : fst fs = r).
+    { unfold profiler_step in Es. destruct slot as [i|].
+      - destruct (step chk i (op_of_req r)); cbn [bind] in Es; [|discriminate]. inversion Es. apply forward_id.
+      - inversion Es. apply forward_id. }
+    rewrite Hf, IH.
+    destruct (slot_run chk (snd fs) (map op_of_req (pre_reqs_f nested))) as [s|p]; cbn [bind fst snd]; [|reflexivity].
+    rewrite <- app_assoc. reflexivity.
+  - intros slot log. cbn [prof_forest pre_reqs_f pre_ans_f map]. rewrite app_nil_r.
+    destruct slot; reflexivity.
+  - intros t IHt rest IHf slot log. cbn [prof_forest pre_reqs_f pre_ans_f]. rewrite map_app, slot_run_app, IHt.
+    destruct (slot_run chk slot (map op_of_req (pre_reqs_t t))) as [s|p]; cbn [bind fst snd]; [|reflexivity].
+    rewrite IHf.
+    destruct (slot_run chk s (map op_of_req (pre_reqs_f rest))) as [s'|p]; cbn [bind fst snd]; [|reflexivity].
+    rewrite <- app_assoc. reflexivity.
+Qed.
+
+(** Transparency with re-entrant requests: for every forest (every behaviour
+    of the wrapped allocator, nested requests included), what the wrapped
+    allocator received is the pre-order of the requests — top-level and nested
+    alike, one call each, nothing else —, every requester was handed the wrapped
+    allocator's answer, and the tally is that of the pre-order sequence. *)
+Theorem nested_transparent chk slot f s log rets :
+  prof_forest chk slot [] f = Ok (s, log, rets) ->
+  log = pre_reqs_f f /\ rets = pre_ans_f f /\
+  slot_run chk slot (map op_of_req (pre_reqs_f f)) = Ok s.
+Proof.
+  rewrite (proj2 (prof_tree_forest_char chk)).
+  destruct (slot_run chk slot (map op_of_req (pre_reqs_f f))) as [s'|p]; cbn [bind app]; [|discriminate].
+  intros E. inversion E. repeat split; reflexivity.
+Qed.
+
+Theorem nested_panic_only_from_tally chk slot f p :
+  prof_forest chk slot [] f = Panic p ->
+  slot_run chk slot (map op_of_req (pre_reqs_f f)) = Panic p.
+Proof.
+  rewrite (proj2 (prof_tree_forest_char chk)).
+  destruct (slot_run chk slot (map op_of_req (pre_reqs_f f))) as [s'|q]; cbn [bind]; [discriminate|].
+  intros E. inversion E. reflexivity.
+Qed.
+
+Theorem nested_release_total slot f :
+  exists s, prof_forest false slot [] f = Ok (s, pre_reqs_f f, pre_ans_f f).
+Proof.
+  rewrite (proj2 (prof_tree_forest_char false)). destruct slot as [i|]; cbn [slot_run].
+  - destruct (run_from_release (map op_of_req (pre_reqs_f f)) i) as [i' ->]. cbn [bind app]. eexists; reflexivity.
+  - cbn [bind app]. eexists; reflexivity.
+Qed.
+
+Theorem nest_model_sb chk slot f s log rets :
+  prof_forest chk slot [] f = Ok (s, log, rets) -> nest_sb f log rets = true.
+Proof.
+  intros H. destruct (nested_transparent _ _ _ _ _ _ H) as [-> [-> _]].
+  unfold nest_sb. apply prof_sb_meaning. split; reflexivity.
+Qed.
+
+(** A forest of leaves is the flat run of [C09_transparent]. *)
+Fixpoint leaves (reqs : list req) (answers : list resp) : rforest :=
+  match reqs, answers with
+  | r :: rs, a :: ans => FCons (RNode r a FNil) (leaves rs ans)
+  | _, _ => FNil
+  end.
+
+Lemma leaves_pre reqs : forall answers, length answers = length reqs ->
+  pre_reqs_f (leaves reqs answers) = reqs /\ pre_ans_f (leaves reqs answers) = answers.
+Proof.
+  induction reqs as [|r rs IH]; intros [|a ans] H; cbn in H; try discriminate; cbn [leaves pre_reqs_f pre_ans_f pre_reqs_t pre_ans_t app].
+  - split; reflexivity.
+  - destruct (IH ans) as [E1 E2]; [lia|]. rewrite E1, E2. split; reflexivity.
+Qed.
+
+Theorem nested_flat inner chk slot reqs :
+  prof_forest chk slot [] (leaves reqs (responses inner [] reqs)) =
+  (do x <- run_prof inner chk slot [] reqs; Ok (snd x, fst (fst x), snd (fst x))).
+Proof.
+  rewrite (proj2 (prof_tree_forest_char chk)), run_prof_char.
+  destruct (leaves_pre reqs (responses inner [] reqs) (responses_length inner [] reqs)) as [-> ->].
+  destruct (slot_run chk slot (map op_of_req reqs)); reflexivity.
+Qed.
+
+(** Three levels, both a nested allocation and a nested deallocation. *)
+Example nested_example :
+  prof_forest true (Some info_init) []
+    (FCons (RNode (RAlloc (mkL 100 8)) (RespPtr 4096)
+              (FCons (RNode (RAllocZeroed (mkL 24 8)) (RespPtr 1)
+                        (FCons (RNode (RDealloc 77 (mkL 8 1)) RespUnit FNil) FNil))
+              (FCons (RNode (RRealloc 1 (mkL 24 8) 48) (RespPtr 0) FNil) FNil)))
+     (FCons (RNode (RDealloc 4096 (mkL 100 8)) RespUnit FNil) FNil))
+  = Ok (Some (mkI (mkT 1 24) tally_zero (mkT 2 124) (mkT 2 108) 0 2 40 140),
+        [RAlloc (mkL 100 8); RAllocZeroed (mkL 24 8); RDealloc 77 (mkL 8 1); RRealloc 1 (mkL 24 8) 48; RDealloc 4096 (mkL 100 8)],
+        [RespPtr 4096; RespPtr 1; RespUnit; RespPtr 0; RespUnit]).
+Proof. vm_compute. reflexivity. Qed.
